@@ -26,6 +26,8 @@ type Node struct {
 	FvName [16]byte
 	// USB
 	Port, Iface uint8
+	// Vendor (messaging vendor node without vendor-defined data): GUID in wire bytes
+	Vendor [16]byte
 }
 
 func UTF16Z(s string) []byte {
@@ -63,6 +65,8 @@ func (n Node) Bytes() []byte {
 		return append(hdr(4, 6, 20), n.FvName[:]...)
 	case "USB":
 		return append(hdr(3, 5, 6), n.Port, n.Iface)
+	case "Vendor":
+		return append(hdr(3, 10, 20), n.Vendor[:]...)
 	}
 	panic("dpgen: unknown node kind " + n.Kind)
 }
